@@ -3,6 +3,7 @@ CONSTANTS
   LongLen = 6
   StartPerms = {0, 420, 511, 83, 2541}
   StringPerms = {420}
+  RawKinds = {"file", "link"}
   DoubleGroups <- DoubleGroupsT
   DoublePerms <- DoublePermsT
 SPECIFICATION Spec
